@@ -46,7 +46,8 @@ type reader struct {
 //
 // Sort order is determined using the following rules:
 //   - for sam.QueryName the LessByName sam.Record method is used.
-//   - for sam.Coordinate the LessByCoordinate sam.Record method is used.
+//   - for sam.Coordinate the LessByCoordinate sam.Record method is used
+//     on records that have been linked to the merged header.
 //   - for sam.Unsorted the reader streams are concatenated.
 //   - for sam.Unknown the provided less function is used - if nil
 //     this is the same as sam.Unsorted.
@@ -100,6 +101,9 @@ func NewMerger(less func(a, b *sam.Record) bool, src ...*Reader) (*Merger, error
 		rec, err := r.Read()
 		if err != nil && err != io.EOF && m.err == nil {
 			m.err = err
+		}
+		if rec != nil {
+			m.reassignReference(i, rec)
 		}
 		readers[i] = reader{id: i, r: r, head: rec, err: err}
 		m.readers[i] = &readers[i]
@@ -167,6 +171,7 @@ func (m *Merger) nextBySortOrder() (rec *sam.Record, err error) {
 	rec, err = reader.head, reader.err
 	reader.head, reader.err = reader.r.Read()
 	if reader.err == nil {
+		m.reassignReference(reader.id, reader.head)
 		m.push(reader)
 	} else if reader.err != io.EOF {
 		m.err = reader.err
@@ -177,7 +182,6 @@ func (m *Merger) nextBySortOrder() (rec *sam.Record, err error) {
 	if err == io.EOF {
 		err = nil
 	}
-	m.reassignReference(reader.id, rec)
 	return rec, err
 }
 
